@@ -938,21 +938,39 @@ impl DecodeComplexAllNullTask {
 
 impl DecodePageTask for DecodeComplexAllNullTask {
     fn decode(self: Box<Self>) -> Result<DecodedPage> {
-        let num_values = self.ranges.iter().map(|r| r.end - r.start).sum::<u64>();
-        let rep = self.decode_level(&self.rep, num_values);
-        let def = self.decode_level(&self.def, num_values);
+        // `ranges` are row ranges.  A row may own several levels (nested lists), so translate rows to
+        // levels first: a row starts wherever the repetition level is maxed out.
+        let mut this = self;
+        if let Some(rep) = this.rep.as_ref() {
+            let max_rep = this.def_meaning.iter().filter(|l| l.is_list()).count() as u16;
+            let mut starts = rep
+                .iter()
+                .enumerate()
+                .filter(|(_, r)| **r == max_rep)
+                .map(|(i, _)| i as u64)
+                .collect::<Vec<_>>();
+            starts.push(rep.len() as u64);
+            this.ranges = this
+                .ranges
+                .iter()
+                .map(|r| starts[r.start as usize]..starts[r.end as usize])
+                .collect();
+        }
+        let num_values = this.ranges.iter().map(|r| r.end - r.start).sum::<u64>();
+        let rep = this.decode_level(&this.rep, num_values);
+        let def = this.decode_level(&this.def, num_values);
 
         // If there are definition levels there may be empty / null lists which are not visible
         // in the items array.  We need to account for that here to figure out how many values
         // should be in the items array.
         let num_values = if let Some(def) = &def {
-            def.iter().filter(|&d| *d <= self.max_visible_level).count() as u64
+            def.iter().filter(|&d| *d <= this.max_visible_level).count() as u64
         } else {
             num_values
         };
 
         let data = DataBlock::AllNull(AllNullDataBlock { num_values });
-        let unraveler = RepDefUnraveler::new(rep, def, self.def_meaning, num_values);
+        let unraveler = RepDefUnraveler::new(rep, def, this.def_meaning, num_values);
         Ok(DecodedPage {
             data,
             repdef: unraveler,
